@@ -5,6 +5,7 @@ import (
 	"io"
 	"math/big"
 	"net"
+	"os"
 	"sort"
 	"strconv"
 	"strings"
@@ -379,7 +380,11 @@ func c04AskSeq(c *core.Ctx, isClient bool, sid uint32, evs []simnet.Event, tab m
 			sb.WriteString(x)
 		}
 	}
-	reply := c.Model.Ask("%s", sb.String())
+	t0 := time.Now()
+	reply := c04Procs.ask(c, sb.String())
+	if os.Getenv("VH_SLOW") != "" {
+		c.Hist("seq ask ms", fmt.Sprintf("%5d ms for %4d KB", time.Since(t0).Milliseconds()/100*100, sb.Len()/1024/100*100))
+	}
 	f := strings.Fields(reply)
 	if len(f) != 4 || f[0] != "ok" {
 		return nil, reply
@@ -537,6 +542,52 @@ func c04SplitDigest(dec string, ln *int, fnv *uint64) bool {
 	lo := new(big.Int).And(x, new(big.Int).SetUint64(^uint64(0)))
 	*ln, *fnv = int(hi.Int64()), lo.Uint64()
 	return true
+}
+
+// ------------------------------------------------------------------------------------------------
+// The requests of c04-udp-seq carry a whole run (hundreds of KB): they are spread over a few instances of the
+// model executable instead of queueing on one.
+
+type c04Pool struct {
+	free chan *core.Proc
+	own  []*core.Proc
+}
+
+var c04Procs *c04Pool
+
+func newC04Pool(c *core.Ctx, n int) *c04Pool {
+	p := &c04Pool{free: make(chan *core.Proc, n)}
+	if c.Model == nil {
+		return p
+	}
+	p.free <- c.Model
+	for i := 1; i < n; i++ {
+		pr, err := core.StartProc(c.Model.Path())
+		if err != nil {
+			break
+		}
+		p.own = append(p.own, pr)
+		p.free <- pr
+	}
+	return p
+}
+
+func (p *c04Pool) ask(c *core.Ctx, line string) string {
+	if p == nil || cap(p.free) == 0 {
+		return c.Model.Ask("%s", line)
+	}
+	pr := <-p.free
+	defer func() { p.free <- pr }()
+	return pr.Ask("%s", line)
+}
+
+func (p *c04Pool) close() {
+	if p == nil {
+		return
+	}
+	for _, pr := range p.own {
+		pr.Close()
+	}
 }
 
 // ------------------------------------------------------------------------------------------------
